@@ -42,7 +42,7 @@ MAX_FNS = {'np.maximum', 'np.max', 'max', 'np.nanmax', 'np.fmax', 'np.amax'}
 
 def run(ctx: Ctx):
   m = model(ctx)
-  for r in (r1, r2, r3, r4, r5, r6, r7, r10, r11, r12, r13, r14, r15, r17, r18, r19, r20, r23, r24):
+  for r in (r1, r2, r3, r4, r5, r6, r7, r10, r11, r12, r13, r14, r15, r17, r18, r19, r20, r23, r24, r25):
     ctx.guard(r, m)
   ctx.include('R-C01-8', 'merge leaves its operand intact and shares no'
               ' mutable state with it (R-C11-1, R-C11-2): a shard state that'
@@ -1425,11 +1425,46 @@ def r24(ctx: Ctx, m):
   ctx.floor(rule, 2, n)
 
 
+def r25(ctx: Ctx, m):
+  rule = 'R-C01-25'
+  ctx.rule(rule, '"for order-carrying accumulators up to the documented concatenation order": an accumulator whose merge CONCATENATES'
+           ' (`<mine>.extend(<theirs>)` over paired columns of self and the operand) always appends the operand\'s part to'
+           ' its own: the two loop variables of the pairing are never exchanged (`mine, theirs = theirs, mine`, e.g. to'
+           ' "grow the longer list") — the merged order would depend on which side happens to be longer')
+  n = 0
+  for ci in m.accumulators:
+    fi = ci.methods.get('merge')
+    if fi is None:
+      continue
+    for lp in walk_no_nested(fi.node):
+      if not (isinstance(lp, ast.For) and isinstance(lp.target, ast.Tuple) and len(lp.target.elts) == 2
+              and all(isinstance(e, ast.Name) for e in lp.target.elts)):
+        continue
+      a, b = lp.target.elts[0].id, lp.target.elts[1].id
+      if not any(isinstance(c, ast.Call) and isinstance(c.func, ast.Attribute) and c.func.attr in ('extend', 'append', '__iadd__')
+                 and isinstance(c.func.value, ast.Name) and c.func.value.id == a for c in ast.walk(lp)):
+        continue
+      n += 1
+      swaps = [x for x in ast.walk(lp) if isinstance(x, ast.Assign) and any(
+          isinstance(t, ast.Tuple) and {e.id for e in t.elts if isinstance(e, ast.Name)} == {a, b} for t in x.targets)]
+      what = f'{ci.name}.merge: the operand\'s part is appended to the receiver\'s, never the other way round'
+      if swaps:
+        ctx.fail(rule, fi, what,
+                 f'`{unparse(swaps[0])[:60]}` exchanges the receiver\'s and the operand\'s part inside the concatenating loop: for a'
+                 ' longer operand the result is operand + receiver, the documented concatenation order is lost', node=swaps[0])
+      else:
+        ctx.ok(rule, fi, what, lp)
+  ctx.floor(rule, 1, n)
+
+
 from mlmverif.selfcheck import B, OK  # noqa: E402
 
 _R = 'aggregates/rolling_stats.py'
 _C = 'aggregates/classification.py'
 VARIANTS = [
+    B('sampler-merge-grows-the-longer-list', 'aggregates/rolling_stats.py',
+      "    for samples, others in zip(self._samples, other.samples, strict=True):\n      samples.extend(others)\n",
+      "    merged = []\n    for samples, others in zip(self._samples, other.samples, strict=True):\n      if len(others) > len(samples):\n        samples, others = list(others), samples\n      samples.extend(others)\n      merged.append(samples)\n    self._samples = tuple(merged)\n", 'R-C01-25'),
     OK('nested-agg-preprocesses-through-a-local', 'aggregates/base.py',
        "    if self.preprocess_fn:\n      inputs = self.preprocess_fn(inputs)\n    if state is None:\n", "    prep = self.preprocess_fn\n    if prep:\n      inputs = prep(inputs)\n    if state is None:\n"),
     B('nested-agg-preprocesses-the-first-batch-only', 'aggregates/base.py',
